@@ -1,5 +1,5 @@
 import CrabProofs.Lemmas.PatriciaEnvItv
-import CrabProofs.Lemmas.PatriciaSetOps
+import CrabProofs.Lemmas.PatriciaSetOps2
 
 /-!
 # C19 — environment maps and sets behave as their mathematical counterparts
@@ -659,3 +659,15 @@ example :
     let a : DD := ⟨false, PSet.add c (PSet.add c PSet.empty 3) (2 ^ 63)⟩
     (DD.rename c a [3] [7]).map (fun r => (r.contain 3, r.contain 7, r.contain (2 ^ 63))) = some (false, true, true) := by
   decide
+
+/-- `discrete_domain`: iteration and `size()` list exactly the elements once, in index order (and are
+    the CRAB_ERROR of the code on top); `is_bottom()` is exact; a top value contains every element -/
+theorem C19.dd_elems (a : DD) (ha : DD.Inv a) (hat : a.isTop = false) :
+    ∃ l, a.elems = some l ∧ l.Pairwise (· < ·) ∧ l.Nodup ∧ (∀ k, k ∈ l ↔ a.contain k = true) ∧
+      a.size = some l.length := DD.elems_spec ha hat
+theorem C19.dd_elems_top_error (a : DD) (hat : a.isTop = true) : a.elems = none ∧ a.size = none :=
+  DD.elems_top hat
+theorem C19.dd_isBottom_iff (a : DD) (ha : DD.Inv a) : a.isBottom = true ↔ ∀ k, a.contain k = false :=
+  DD.isBottom_iff ha
+theorem C19.dd_isTop_contains_all (a : DD) (ha : DD.Inv a) (h : a.isTop = true) (k : Nat) :
+    a.contain k = true := DD.isTop_iff ha h k
